@@ -6,6 +6,7 @@
 import Proofs.C06_Aux
 import Proofs.C06_Observe
 import Proofs.C06_Scaled
+import Proofs.C06_Source
 
 namespace Atomman.C06
 set_option linter.unusedSimpArgs false
@@ -1304,5 +1305,113 @@ example : (propGet 1 "w" none (step exShape (.getItem 0 (.mask [false, false, fa
 example : (propGet 0 "w" (some (.int 2)) exShape).1 = .ok ⟨.flt, [1], [.flt 2]⟩ := by decide +kernel
 -- the hypotheses of `getItem_keeps_shape` hold here
 example : (getItem 0 (.int 2) exShape).1 = .ok 1 := by decide +kernel
+
+/-! ## the call layer: one Python call with its options (`Atoms.prop`, `System.atoms_prop`, `System(...)`,
+    `System.atoms_extend`), dispatched by the decisions regenerated from the source (`Proofs/C06_Source.lean`) -/
+
+/-- a call whose option handling refuses changes nothing. -/
+theorem call_refused_unchanged (off : Bool) (s : State) (c : Call) (e : Err) (h : c.toOp s = .error e) :
+    callWith off s c = (.error e, s) := by
+  unfold callWith; rw [h]
+
+/-- every call of the API — whatever the options, accepted or refused — keeps the invariant. -/
+theorem inv_callWith (off : Bool) (s : State) (c : Call) (h : Inv s) : Inv (callWith off s c).2 := by
+  unfold callWith
+  cases c.toOp s with
+  | error e => exact h
+  | ok op => exact inv_stepWith off s op h
+
+/-- **end to end**: after any finite sequence of API calls with any options every per-atom property of every object is
+    rectangular with one row per atom, atom types are ≥ 1, names are distinct (`Inv`, as `inv_rectangular` /
+    `inv_atype_ge_one` spell out). -/
+theorem inv_calls (cs : List Call) : Inv (cs.foldl callStep init) := by
+  have : ∀ (s : State), Inv s → Inv (cs.foldl callStep s) := by
+    induction cs with
+    | nil => intro s h; exact h
+    | cons c cs ih => intro s h; exact ih _ (inv_callWith false s c h)
+  exact this init init_inv
+
+/-- `prop(...)` refuses with ValueError in its option handling exactly when `index` and `a_id` are both given. -/
+theorem propCall_refuses_value_iff (o : Nat) (a : PropArgs) :
+    propCall o a = .error .value ↔ (a.a_id.isSome = true ∧ a.index.isSome = true) := by
+  rcases a with ⟨_ | k, _ | ix, _ | (v | src), _ | jx⟩ <;> simp [propCall, propDispatch, CallVal.isAtoms]
+
+/-- … and with TypeError exactly when a value that is not an `Atoms` object comes without a key. -/
+theorem propCall_refuses_type_iff (o : Nat) (a : PropArgs) :
+    propCall o a = .error .type ↔
+      (¬ (a.a_id.isSome = true ∧ a.index.isSome = true) ∧ a.key = none ∧ ∃ v, a.value = some (.lit v)) := by
+  rcases a with ⟨_ | k, _ | ix, _ | (v | src), _ | jx⟩ <;> simp [propCall, propDispatch, CallVal.isAtoms]
+
+/-- `a_id` is another spelling of `index`. -/
+theorem propCall_aid_alias (o : Nat) (k : Option String) (v : Option CallVal) (ix : Index) :
+    propCall o ⟨k, none, v, some ix⟩ = propCall o ⟨k, some ix, v, none⟩ := by
+  rcases k with _ | k <;> rcases v with _ | (v | src) <;> simp [propCall, propDispatch, CallVal.isAtoms]
+
+theorem atomsPropCall_aid_alias (i o : Nat) (k : Option String) (v : Option CallVal) (ix : Index) (sc : Flag) :
+    atomsPropCall i o ⟨k, none, v, some ix⟩ sc = atomsPropCall i o ⟨k, some ix, v, none⟩ sc := by
+  rcases sc with (_ | _) | t <;> rcases k with _ | k <;> rcases v with _ | (v | src) <;>
+    simp [atomsPropCall, atomsPropDispatch, propCall, propDispatch, CallVal.isAtoms]
+
+/-- a `scale` that is not a Python `bool` is refused with TypeError, whatever its truth value and the other arguments
+    (and, by `call_refused_unchanged`, nothing changes). -/
+theorem atomsPropCall_nonbool_refused (i o : Nat) (a : PropArgs) (t : Bool) :
+    atomsPropCall i o a (.other t) = .error .type := rfl
+
+/-- `atoms_prop(..., scale=False)` IS `atoms.prop(...)` on the system's atoms: same refusals of the option handling,
+    and for an accepted call the same reply and the same resulting state. -/
+theorem atomsProp_unscaled_delegates (off : Bool) (s : State) (i : Nat) (a : PropArgs) :
+    (match propCall (s.sys i).atoms a, atomsPropCall i (s.sys i).atoms a (.bool false) with
+     | .ok op, .ok op' => run off op' s = run off op s
+     | .error e, .error e' => e = e'
+     | _, _ => False) := by
+  rcases a with ⟨_ | k, _ | ix, _ | (v | src), _ | jx⟩ <;>
+    simp [propCall, atomsPropCall, propDispatch, atomsPropDispatch, CallVal.isAtoms] <;> rfl
+
+/-- `System(..., scale=…)` refuses exactly under the test of the source; an accepted call converts the positions
+    exactly when `scale is True` and copies the atoms exactly when `safecopy` is truthy. -/
+theorem systemCall_spec (o : Nat) (box : Box Rat) (pbc : List Bool) (sy : Option (List (Option String)))
+    (ms : Option (List (Option Rat))) (scale safecopy : Flag) :
+    (systemCall o box pbc sy ms scale safecopy = .error .type ↔ systemInitRefuses scale) ∧
+    (∀ sc cp, systemCall o box pbc sy ms scale safecopy = .ok (.mkSysX o box pbc sy ms sc cp) →
+      ((sc = true ↔ systemInitConverts scale) ∧ cp = safecopy.truthy)) := by
+  rcases scale with b | t
+  · refine ⟨by simp [systemCall, systemInitRefuses, Flag.isBool], ?_⟩
+    intro sc cp h
+    simp only [systemCall, Except.ok.injEq, Op.mkSysX.injEq] at h
+    obtain ⟨-, -, -, -, -, h1, h2⟩ := h
+    subst h1 h2
+    simp [systemInitConverts]
+  · refine ⟨by simp [systemCall, systemInitRefuses, Flag.isBool], ?_⟩
+    intro sc cp h
+    simp [systemCall] at h
+
+def argKind : Int ⊕ Nat → ArgKind
+  | .inl _ => .int
+  | .inr _ => .atoms
+
+/-- `atoms_extend(value, scale=…)` refuses with ValueError exactly under the test of the source (`scale is True` with a
+    count), and an accepted call converts the donor's positions exactly when `scale` is truthy. -/
+theorem atomsExtendCall_spec (i : Nat) (value : Int ⊕ Nat) (scale : Flag) (sy : Option (List (Option String))) :
+    (atomsExtendCall i value scale sy = .error .value ↔ atomsExtendRefuses scale (argKind value)) ∧
+    (∀ v sc sy', atomsExtendCall i value scale sy = .ok (.sysExtend i v sc sy') →
+      (sc = true ↔ atomsExtendConverts scale)) := by
+  rcases value with n | d <;> rcases scale with (_ | _) | (_ | _) <;>
+    simp [atomsExtendCall, atomsExtendRefuses, atomsExtendConverts, argKind, Flag.truthy]
+
+-- non-vacuity: on the example state, with the options spelled every way
+example : callOutput exS (.prop 0 ⟨some "q", some (.int 0), none, some (.int 0)⟩) = .error .value := by decide +kernel
+example : callStep exS (.prop 0 ⟨some "q", some (.int 0), none, some (.int 0)⟩) = exS := by decide +kernel
+example : callOutput exS (.prop 0 ⟨some "q", none, none, some (.int (-1))⟩) = output exS (.propGet 0 "q" (some (.int (-1)))) := by
+  decide +kernel
+example : callOutput exS (.prop 0 ⟨none, none, some (.lit ⟨.int, [], [.int 1]⟩), none⟩) = .error .type := by decide +kernel
+example : callOutput exS (.atomsProp 0 ⟨some "pos", none, none, none⟩ (.other true)) = .error .type := by decide +kernel
+example : callOutput exS (.atomsProp 0 ⟨none, none, none, none⟩ (.bool false)) = output exS (.propKeys 0) := by decide +kernel
+example : callOutput exS (.atomsProp 0 ⟨some "pos", none, none, some (.int 1)⟩ (.bool true))
+    = output exS (.sysPropGetScaled 0 "pos" (some (.int 1))) := by decide +kernel
+example : callOutput exS (.system 0 unitBox [true, true, true] none none (.other true) (.bool false)) = .error .type := by
+  decide +kernel
+example : callOutput exS (.atomsExtend 0 (.inl 2) (.bool true) none) = .error .value := by decide +kernel
+example : Inv (callStep exS (.atomsExtend 0 (.inr 1) (.other true) none)) := inv_callWith false _ _ (inv_reachable exOps)
+
 
 end Atomman.C06
